@@ -30,6 +30,11 @@ CONFIGS = [
     # connection once for a request (the request was issued with its id; nothing may be sent again on its own)
     (2, 2, [], [], False, 0, [(1, 2), (2, 1)], [(1, 1)]),
 ]
+# thorough tier only: three threads x two requests (the number of schedules is cut at the limit: not exhaustive)
+THOROUGH_CONFIGS = [
+    (3, 2, [], [], False),
+    (3, 2, [(1, 1)], [(2, 2)], True),
+]
 VERBS = ('get', 'post', 'put', 'delete', 'patch')
 
 
@@ -126,8 +131,10 @@ def run(ctx):
     total = 0
     limit = 12000 if ctx.quick else 200000
     try:
-        for cfg in CONFIGS:
+        for cfg in CONFIGS + ([] if ctx.quick else THOROUGH_CONFIGS):
             nt, reqs, own, fail, shared = cfg[:5]
+            if cfg in THOROUGH_CONFIGS:
+                limit = 60000
             start = cfg[5] if len(cfg) > 5 else 0
             rej = cfg[6] if len(cfg) > 6 else []
             drop = cfg[7] if len(cfg) > 7 else []
@@ -207,7 +214,8 @@ def run(ctx):
                 execs.append(res)
             total += len(execs)
             groups.setdefault((nt, reqs), []).extend(execs)
-            ctx.extra.setdefault('schedules_per_config', {})['%dx%d own=%s fail=%s shared_headers=%s start=%d' % (nt, reqs, own, fail, shared, start)] = len(execs)
+            ctx.extra.setdefault('schedules_per_config', {})['%dx%d own=%s fail=%s shared_headers=%s start=%d rej=%s drop=%s' % (
+                nt, reqs, own, fail, shared, start, rej, drop)] = len(execs)
             if len(execs) >= limit:
                 ctx.extra['schedule_limit_hit'] = True
     finally:
